@@ -1,87 +1,18 @@
 --------------------------------- MODULE CQ ---------------------------------
 (***************************************************************************)
-(* Exact scalar arithmetic for the UFL semantics: rationals <<n, d>> with  *)
-(* d > 0 in lowest terms, and Gaussian rationals <<re, im>>.  QU / CU are   *)
-(* the UNDEFINED values (denominator 0): division by zero, non-rational    *)
-(* roots, comparisons of complex numbers, and anything whose numerator or  *)
-(* denominator would leave the range LIM (TLC integers are 32 bit) are     *)
-(* undefined, and every operation propagates undefinedness.  The harness   *)
-(* never compares an undefined prediction (it counts them).                *)
+(* The scalar domain of the UFL semantics.  This (default) variant is the  *)
+(* field of Gaussian rationals of CQbase.  The variant spec/jets/CQ.tla    *)
+(* (selected by putting spec/jets first on the TLA+ library path) defines  *)
+(* the SAME operator names over truncated Taylor series in two nilpotent   *)
+(* variables, which is how derivatives are given a meaning.                *)
 (***************************************************************************)
-EXTENDS Integers, Sequences
+EXTENDS CQbase
 
-LIM == 32000          \* |n|, d <= LIM  =>  every intermediate product and sum of two products < 2^31
-
-AbsI(x) == IF x < 0 THEN -x ELSE x
-RECURSIVE GCD(_, _)
-GCD(a, b) == IF b = 0 THEN a ELSE GCD(b, a % b)
-
-QU == <<0, 0>>
-QDef(q) == q[2] # 0
-QN(n, d) ==
-  IF d = 0 THEN QU
-  ELSE LET g  == GCD(AbsI(n), AbsI(d))
-           s  == IF d < 0 THEN -1 ELSE 1
-           nn == s * (n \div g)
-           dd == s * (d \div g)
-       IN IF AbsI(nn) > LIM \/ dd > LIM THEN QU ELSE <<nn, dd>>
-QI(n) == <<n, 1>>
-Q0 == <<0, 1>>
-Q1 == <<1, 1>>
-QAdd(p, q) == IF QDef(p) /\ QDef(q) THEN QN(p[1] * q[2] + q[1] * p[2], p[2] * q[2]) ELSE QU
-QNeg(p)    == IF QDef(p) THEN <<-p[1], p[2]>> ELSE QU
-QSub(p, q) == QAdd(p, QNeg(q))
-QMul(p, q) == IF QDef(p) /\ QDef(q) THEN QN(p[1] * q[1], p[2] * q[2]) ELSE QU
-QInv(p)    == IF QDef(p) /\ p[1] # 0 THEN QN(p[2], p[1]) ELSE QU
-QDiv(p, q) == QMul(p, QInv(q))
-QIsZero(p) == QDef(p) /\ p[1] = 0
-QLt(p, q)  == p[1] * q[2] < q[1] * p[2]          \* only for defined p, q
-QSign(p)   == IF p[1] > 0 THEN 1 ELSE IF p[1] < 0 THEN -1 ELSE 0
-QAbs(p)    == IF QDef(p) THEN <<AbsI(p[1]), p[2]>> ELSE QU
-IsSquare(n) == n >= 0 /\ \E k \in 0..150 : k * k = n
-ISqrt(n) == CHOOSE k \in 0..150 : k * k = n
-QSqrt(p) == IF QDef(p) /\ IsSquare(p[1]) /\ IsSquare(p[2]) THEN <<ISqrt(p[1]), ISqrt(p[2])>> ELSE QU
-
-\* ---- Gaussian rationals ----
-CU == <<QU, QU>>
-CDef(z) == QDef(z[1]) /\ QDef(z[2])
-CK(z) == IF CDef(z) THEN z ELSE CU
-CR(q) == CK(<<q, Q0>>)                    \* real number
-CI(n) == <<QI(n), Q0>>                    \* integer
-C0 == CI(0)
-C1 == CI(1)
-CQ2(n, d) == CR(QN(n, d))
-CIsReal(z) == QIsZero(z[2])
-CIsZero(z) == QIsZero(z[1]) /\ QIsZero(z[2])
-CAdd(z, w) == CK(<<QAdd(z[1], w[1]), QAdd(z[2], w[2])>>)
-CNeg(z)    == CK(<<QNeg(z[1]), QNeg(z[2])>>)
-CSub(z, w) == CAdd(z, CNeg(w))
-CMul(z, w) == CK(<<QSub(QMul(z[1], w[1]), QMul(z[2], w[2])), QAdd(QMul(z[1], w[2]), QMul(z[2], w[1]))>>)
-CConj(z)   == CK(<<z[1], QNeg(z[2])>>)
-CRe(z)     == CK(<<z[1], Q0>>)
-CIm(z)     == CK(<<z[2], Q0>>)
-CNorm2(z)  == QAdd(QMul(z[1], z[1]), QMul(z[2], z[2]))
-CInv(z)    == LET n == CNorm2(z) IN
-              IF ~CDef(z) \/ ~QDef(n) \/ QIsZero(n) THEN CU
-              ELSE CK(<<QDiv(z[1], n), QNeg(QDiv(z[2], n))>>)
-CDiv(z, w) == CMul(z, CInv(w))
-CAbs(z)    == IF ~CDef(z) THEN CU ELSE IF CIsReal(z) THEN CR(QAbs(z[1])) ELSE CR(QSqrt(CNorm2(z)))
-CSqrt(z)   == IF CDef(z) /\ CIsReal(z) /\ z[1][1] >= 0 THEN CR(QSqrt(z[1])) ELSE CU
-RECURSIVE CPowNat(_, _)
-CPowNat(z, k) == IF k = 0 THEN C1 ELSE CMul(z, CPowNat(z, k - 1))
-\* z ** w for integer w (negative: reciprocal) and w = 1/2 of a non-negative real; otherwise
-\* outside the rational fragment.  0 ** negative is undefined.
-CPow(z, w) ==
-  IF ~CDef(z) \/ ~CDef(w) \/ ~CIsReal(w) THEN CU
-  ELSE IF w[1][2] = 1 THEN
-         (IF w[1][1] >= 0 THEN (IF w[1][1] > 6 THEN CU ELSE CPowNat(z, w[1][1]))
-          ELSE IF w[1][1] < -6 THEN CU ELSE CInv(CPowNat(z, -w[1][1])))
-  ELSE IF w[1] = <<1, 2>> THEN CSqrt(z)
-  ELSE CU
-\* order comparisons exist for real operands only; TRUE/FALSE/"undef" as 1/0/-1
-CCmpDef(z, w) == CDef(z) /\ CDef(w) /\ CIsReal(z) /\ CIsReal(w)
-CLt(z, w) == QLt(z[1], w[1])
-CEq(z, w) == z = w
-CBool(b) == IF b THEN C1 ELSE C0
-CSignum(z) == IF CDef(z) /\ CIsReal(z) THEN CI(QSign(z[1])) ELSE CU
+CSame(z, w) == z = w          \* equality of values (eq / ne conditions)
+CLit(z) == z                  \* embed a constant of CQbase
+CVal0(z) == z                 \* the plain value
+CSelS(z) == CU                \* coefficient of the first nilpotent variable: none here
+CSelT(z) == CU
+CSeed(z, ds, dt) == z         \* perturbations have no effect in the plain domain
+Jets == FALSE
 =============================================================================
